@@ -465,3 +465,193 @@ def translate_ast_function(src, name, prefix='c_ast_'):
     if ret is None:
         raise Unsupported('no return')
     return 'Definition %s%s : cfun := mkcfun [%s] %s.\n' % (prefix, name, '; '.join(out), ret), nint
+
+
+# ---------------------------------------------------------------------------------------------------
+# table-filling loop nests (lib/fci_graph.c calculate_Z_matrix) -> the list of (flat index, value)
+# assignments they perform and the list of flat indices of the binomial table they read.
+# int arithmetic is modelled as exact integer arithmetic (signed overflow would be undefined behaviour;
+# the (int32_t) narrowing of the accumulated value is modelled as the identity: see DESIGN, trusted base).
+LTOK = re.compile(r'\s*(?:(\d+)|([A-Za-z_]\w*)|(\+\+|\+=|<=|>=|==|[-+*/%()\[\]{}=,;<>]))')
+
+
+def _ltokenize(s):
+    pos, out = 0, []
+    s = s.strip()
+    while pos < len(s):
+        m = LTOK.match(s, pos)
+        if not m or m.end() == pos:
+            raise Unsupported('token at %r' % s[pos:pos + 20])
+        pos = m.end()
+        if m.group(1) is not None:
+            out.append(('num', int(m.group(1))))
+        elif m.group(2) is not None:
+            out.append(('id', m.group(2)))
+        else:
+            out.append(('op', m.group(3)))
+    return out
+
+
+class LoopParser:
+    def __init__(self, toks, table, out, width):
+        self.t, self.i = toks, 0
+        self.table, self.out, self.width = table, out, width
+
+    def peek(self, k=0):
+        return self.t[self.i + k] if self.i + k < len(self.t) else ('eof', None)
+
+    def eat(self, kind, val=None):
+        tk = self.peek()
+        if tk[0] != kind or (val is not None and tk[1] != val):
+            raise Unsupported('expected %s %s, got %s' % (kind, val, tk))
+        self.i += 1
+        return tk[1]
+
+    # ---- expressions: (coq text, list of table-read index texts)
+    def expr(self, minp=0):
+        lhs, rd = self.atom()
+        prec = {'+': 6, '-': 6, '*': 7}
+        while self.peek()[0] == 'op' and self.peek()[1] in prec and prec[self.peek()[1]] >= minp:
+            op = self.eat('op')
+            rhs, rd2 = self.expr(prec[op] + 1)
+            lhs = '(%s %s %s)' % ({'+': 'Z.add', '-': 'Z.sub', '*': 'Z.mul'}[op], lhs, rhs)
+            rd = rd + rd2
+        return lhs, rd
+
+    def atom(self):
+        tk = self.peek()
+        if tk == ('op', '('):
+            self.eat('op', '(')
+            if self.peek() == ('id', 'int32_t') and self.peek(1) == ('op', ')'):   # (int32_t) e
+                self.i += 2
+                return self.atom()
+            e = self.expr()
+            self.eat('op', ')')
+            return e
+        if tk[0] == 'num':
+            self.i += 1
+            return '(%d)' % tk[1], []
+        if tk[0] == 'id':
+            self.i += 1
+            if self.peek() == ('op', '['):
+                if tk[1] != self.table:
+                    raise Unsupported('read of array ' + tk[1])
+                self.eat('op', '[')
+                ix, rd = self.expr()
+                self.eat('op', ']')
+                return '(binomZ (Z.div %s (%d)) (Z.modulo %s (%d)))' % (ix, self.width, ix, self.width), rd + [ix]
+            if self.peek() == ('op', '('):
+                raise Unsupported('call ' + tk[1])
+            return 'v_' + tk[1], []
+        raise Unsupported('unexpected %s' % (tk,))
+
+    # ---- statements -> (assignment-list text, read-list text)
+    def for_header(self):
+        self.eat('id', 'for')
+        self.eat('op', '(')
+        self.eat('id', 'int')
+        v = self.eat('id')
+        self.eat('op', '=')
+        lo, rd1 = self.expr()
+        self.eat('op', ';')
+        if self.eat('id') != v:
+            raise Unsupported('loop test')
+        self.eat('op', '<')
+        hi, rd2 = self.expr()
+        self.eat('op', ';')
+        self.eat('op', '++')
+        if self.eat('id') != v:
+            raise Unsupported('loop step')
+        self.eat('op', ')')
+        if rd1 or rd2:
+            raise Unsupported('table read in a loop bound')
+        return v, lo, hi
+
+    def stmts(self, closing):
+        """statement list up to `closing` ('}' or eof): returns (assign_text, reads_text)"""
+        tk = self.peek()
+        if (closing == '}' and tk == ('op', '}')) or (closing is None and tk[0] == 'eof'):
+            return '[]', '[]'
+        if tk == ('op', '{'):
+            self.eat('op', '{')
+            a, r = self.stmts('}')
+            self.eat('op', '}')
+            a2, r2 = self.stmts(closing)
+            return '(%s ++ %s)' % (a, a2), '(%s ++ %s)' % (r, r2)
+        if tk == ('id', 'for'):
+            v, lo, hi = self.for_header()
+            self.eat('op', '{')
+            a, r = self.stmts('}')
+            self.eat('op', '}')
+            a2, r2 = self.stmts(closing)
+            return ('((flat_map (fun v_%s => %s) (zrange %s %s)) ++ %s)' % (v, a, lo, hi, a2),
+                    '((flat_map (fun v_%s => %s) (zrange %s %s)) ++ %s)' % (v, r, lo, hi, r2))
+        if tk[0] == 'id' and tk[1] in ('const', 'int', 'int64_t'):
+            if tk[1] == 'const':
+                self.i += 1
+            ty = self.eat('id')
+            if ty not in ('int', 'int64_t'):
+                raise Unsupported('declaration type ' + ty)
+            v = self.eat('id')
+            self.eat('op', '=')
+            e, rd = self.expr()
+            self.eat('op', ';')
+            # accumulator:  int64_t v = 0;  for (int m = lo; m < hi; ++m) { v += E; }
+            if e == '(0)' and self.peek() == ('id', 'for'):
+                save = self.i
+                m, lo, hi = self.for_header()
+                self.eat('op', '{')
+                if self.peek() == ('id', v) and self.peek(1) == ('op', '+='):
+                    self.i += 2
+                    body, brd = self.expr()
+                    self.eat('op', ';')
+                    self.eat('op', '}')
+                    a2, r2 = self.stmts(closing)
+                    rtxt = '[' + '; '.join(brd) + ']'
+                    return ('(let v_%s := zsum (fun v_%s => %s) %s %s in %s)' % (v, m, body, lo, hi, a2),
+                            '((flat_map (fun v_%s => %s) (zrange %s %s)) ++ (let v_%s := zsum (fun v_%s => %s) %s %s in %s))'
+                            % (m, rtxt, lo, hi, v, m, body, lo, hi, r2))
+                self.i = save
+            a2, r2 = self.stmts(closing)
+            rtxt = '[' + '; '.join(rd) + ']'
+            return '(let v_%s := %s in %s)' % (v, e, a2), '(%s ++ (let v_%s := %s in %s))' % (rtxt, v, e, r2)
+        if tk == ('id', self.out):
+            self.i += 1
+            self.eat('op', '[')
+            ix, rd0 = self.expr()
+            self.eat('op', ']')
+            self.eat('op', '=')
+            e, rd = self.expr()
+            self.eat('op', ';')
+            a2, r2 = self.stmts(closing)
+            rtxt = '[' + '; '.join(rd0 + rd) + ']'
+            return '([(%s, %s)] ++ %s)' % (ix, e, a2), '(%s ++ %s)' % (rtxt, r2)
+        raise Unsupported('statement starting with %s' % (tk,))
+
+
+def translate_c_table_loops(src, name, table='binom', out='out', prefix='c_'):
+    params, body = _func_body(src, name)
+    if params is None:
+        raise Unsupported('function not found')
+    body = re.sub(r'//.*', '', body)
+    body = re.sub(r'/\*.*?\*/', '', body, flags=re.S)
+    m = re.search(r'#define\s+(\w+)\s+(\d+)\s*\n', body)
+    if not m:
+        raise Unsupported('table width macro')
+    macro, width = m.group(1), int(m.group(2))
+    body = re.sub(r'#\s*(define|undef|pragma)[^\n]*\n', '\n', body)
+    body = re.sub(r'\b%s\b' % macro, str(width), body)
+    # the allocation, initialisation and release of the binomial table (its content: Equiv_binom.v)
+    for pat in (r'uint64_t\s*\*\s*%s\s*=\s*safe_malloc\(\s*%s\s*,\s*%d\s*\*\s*%d\s*\)\s*;' % (table, table, width, width),
+                r'initialize_binom\(\s*%s\s*\)\s*;' % table, r'free\(\s*%s\s*\)\s*;' % table):
+        body, n = re.subn(pat, '', body)
+        if n != 1:
+            raise Unsupported('table set-up %r' % pat[:30])
+    p = LoopParser(_ltokenize(body), table, out, width)
+    a, r = p.stmts(None)
+    ps = [q for q in params if q != out]
+    sig = ' '.join('(v_%s : Z)' % q for q in ps)
+    text = 'Definition %s%s_width : Z := %d.\n' % (prefix, name, width)
+    text += 'Definition %s%s_assigns %s : list (Z * Z) :=\n  %s.\n' % (prefix, name, sig, a)
+    text += 'Definition %s%s_reads %s : list Z :=\n  %s.\n' % (prefix, name, sig, r)
+    return text
